@@ -1139,6 +1139,34 @@ def rule_extraction_never_gives_up(ctx, facts, rule):
                   "", "try_borrow at %s: inside a property closure the extraction would silently yield None" % [fn.loc(b) for b in tb], extra="no-try-borrow")
 
 
+def rule_token_answer_only_tokenless(ctx, facts, rule):
+    """SpanLine::current_collect_token answers None for a scope without a token and for nothing else: every `return None` of its own
+    lies behind the None edge of `self.collect_token` (an accessor that stops answering after the queue overflowed makes
+    current_local_parent() say "no local parent" inside a scope that has one)."""
+    prov = Prov(facts)
+    p = "fastrace::local::local_span_line::SpanLine::current_collect_token"
+    fn = facts.fn(p)
+    if fn is None:
+        ctx.fail(rule, p, "-", "anchor exists", "anchor lost", extra="token-none")
+        return
+    nones = []
+    for b, blk in enumerate(fn.blocks):
+        if blk["cleanup"]:
+            continue
+        for st in blk["stmts"]:
+            if st["k"] == "assign" and st["lhs"]["l"] == 0 and not st["lhs"]["p"] and st["rv"]["k"] == "agg" and st["rv"].get("variant") == "None":
+                nones.append(b)
+    edges = discr_cond_edges(fn, prov, r"Option<", ["None"], place_pred=lambda pl: ".collect_token" in pl["p"])
+    # any other test decides nothing about the answer: bool switches in the function (outside the mapping closure) are not expected
+    tests = [fn.loc(b) for b, blk in enumerate(fn.blocks) if not blk["cleanup"] and blk["term"]["k"] == "switch" and blk["term"].get("discr_ty") == "bool"
+             and blk["term"]["discr"]["k"] != "const"]
+    ok = all(fn.guarded([b], edges) for b in nones) if nones else True
+    ctx.check(ok and not (tests and nones and not edges), rule, p, fn.span,
+              "SpanLine::current_collect_token returns None only for a scope without a collect token", "",
+              "`None` is returned at %s outside the None arm of self.collect_token (other tests in the function: %s)" % ([fn.loc(b) for b in nones], tests),
+              extra="token-none")
+
+
 def rule_id_generator(ctx, facts, rule):
     """C02-R7: SpanId::next_id combines the per-thread prefix (high 32 bits) with a counter that is incremented by a
     non-zero constant and stored back on every call -- the structural part of "distinct ids for distinct spans".
